@@ -17,7 +17,7 @@ RULE = ('Complete cross product of a value pool (numbers 0, +-1, 2, 3, fractions
         'error/blank/text operand, or an error result; distinct by (operator, a, b, spelling).')
 ASSUMPTIONS = ['xlref.core is my reading of Excel\'s documented operator rules; number->text display is asserted exactly only '
                'for integers < 1e15 and decimals with <= 15 significant digits in [1e-9, 1e15)',
-               'when the left operand is non-numeric text and the right one an error value either #VALUE! or that error is accepted']
+               'when the left operand is non-numeric text and the right one an error value, the error operand is expected (literal reading of "the left-most error operand is returned unchanged")']
 
 BIN = ['+', '-', '*', '/', '^', '&', '=', '<>', '<', '>', '<=', '>=']
 UN = ['u-', 'u+', '%']
